@@ -349,6 +349,9 @@ pub fn lie(w: &World, zi: usize, variant: usize) -> Option<(Nm, u16, Resp, &'sta
         n
     };
     let www = sub("www");
+    if variant >= 10 {
+        return replayed_wildcard_nsec(w, zi, variant - 10, r);
+    }
     match variant % 10 {
         0 => {
             // NODATA for a type that exists: own NSEC/NSEC3 lists the type
@@ -482,4 +485,52 @@ pub fn lie(w: &World, zi: usize, variant: usize) -> Option<(Nm, u16, Resp, &'sta
             Some((q, T_A, r, "lie-wildcard-without-proof"))
         }
     }
+}
+
+/// The denial record of a wildcard (`*.wild NSEC x.wild` with its genuine
+/// RRSIG, labels = labels of `wild`) replayed under another owner name. The
+/// signature still verifies for every owner below `wild` (wildcard
+/// expansion), but an *expanded* NSEC proves nothing: RFC 4035 §5.3.4 /
+/// RFC 4592 — only the unexpanded wildcard owner is a node of the chain.
+///  0: owner `!.wild` (one label, sorts before `*`), NXDOMAIN for `foo.wild`,
+///     which exists through the wildcard
+///  1: same for the wildcard CNAME `*.wc`, NXDOMAIN for `foo.wc`
+///  2: owner `a.!.wild` (two labels), same denial
+///  3: owner `!.wild`, NXDOMAIN for `*.wild` itself asked as a literal name
+/// In NSEC3 zones the wildcard's NSEC3 is replayed under a sibling hash label
+/// (its signature cannot verify there).
+fn replayed_wildcard_nsec(w: &World, zi: usize, variant: usize, mut r: Resp) -> Option<(Nm, u16, Resp, &'static str)> {
+    let z = &w.zones[zi];
+    let nsec3 = z.shape.denial != Denial::Nsec;
+    let sub = |l: &str| {
+        let mut n = z.apex.clone();
+        for x in l.split('.').rev() {
+            n = prepend(x.as_bytes(), &n);
+        }
+        n
+    };
+    let (wc, new_owner, q, label): (Nm, Nm, Nm, &'static str) = match variant % 4 {
+        0 => (sub("*.wild"), sub("!.wild"), sub("foo.wild"), "lie-nxdomain-wildcard-nsec-replayed-one-label"),
+        1 => (sub("*.wc"), sub("!.wc"), sub("foo.wc"), "lie-nxdomain-wildcard-nsec-replayed-one-label"),
+        2 => (sub("*.wild"), sub("a.!.wild"), sub("foo.wild"), "lie-nxdomain-wildcard-nsec-replayed-two-labels"),
+        _ => (sub("*.wild"), sub("!.wild"), sub("*.wild"), "lie-nxdomain-wildcard-nsec-replayed-one-label"),
+    };
+    r.rcode = 3;
+    r.add_soa(z);
+    if nsec3 {
+        let m = z.n3_match(&wc)?;
+        let mut first = labels(&m.rec.owner)[0].to_vec();
+        // a sibling hash label: flip the last character within the alphabet
+        let i = first.len() - 1;
+        first[i] = if first[i] == b'0' { b'1' } else { b'0' };
+        let other = prepend(&first, &z.apex);
+        add_ce_match(&mut r, z, &parent(&wc)?);
+        r.add(1, z.idx, std::slice::from_ref(&m.rec), &m.sigs, Some(&other), Role::N3CoverNextCloser);
+    } else {
+        let wn = z.node(&wc)?;
+        let rr = wn.rrsets.get(&T_NSEC)?;
+        let sigs = wn.sigs.get(&T_NSEC)?;
+        r.add(1, z.idx, rr, sigs, Some(&new_owner), Role::NsecCoverQname);
+    }
+    Some((q, T_A, r, label))
 }
